@@ -19,6 +19,8 @@ Decided (the per-operation bookkeeping the history invariant needs; structural, 
  * who-may-write: only the two execute functions (+ initialize_position_if_empty, forwarding impls) obtain the
    position's size/collateral `*_mut` accessors inside gmsol_model.
 """
+import json
+import os
 import re
 
 from .. import analyses as A
@@ -27,10 +29,8 @@ from ..model import short_path
 
 POS = r"self\.position"
 FIELDS = ("size_in_usd", "size_in_tokens", "collateral_amount")
-WRITERS_OK = (r"IncreasePosition<P, DECIMALS> as gmsol_model::action::MarketAction>::execute$",
-              r"DecreasePosition<P, DECIMALS> as gmsol_model::action::MarketAction>::execute$",
-              r"IncreasePosition::<P, DECIMALS>::initialize_position_if_empty$",
-              r"^<&mut P as gmsol_model::position::PositionStateMut<DECIMALS>>::")
+_T = json.load(open(os.path.join(os.path.dirname(os.path.dirname(os.path.dirname(os.path.abspath(__file__)))), "tables", "C07.json")))
+WRITERS_OK = tuple(w["fn"] for w in _T["writers"])
 
 
 def run(ctx):
@@ -150,6 +150,9 @@ def _increase(ctx, prog, inc):
             else:
                 agg.setdefault("coll_ok", set()).add(change.show())
         n += 1
+    unc = H.uncovered_stores(inc, paths, r"PositionStateMut::(size_in_usd|size_in_tokens|collateral_amount)_mut\(self\.position\)$")
+    if unc:
+        agg["usd"].append("%d store(s) into the position's sizes lie on no analysed success path" % len(unc))
     ctx.ob("inc-oi-delta:size_in_usd", not agg["usd"] and n > 0,
            "on %d success paths: size_in_usd stored - old == update_open_interest arg 1 == %s%s" % (
                n, sorted(agg.get("usd_ok", [])), "; MISMATCH: %s" % agg["usd"][:2] if agg["usd"] else ""), where=inc.where())
